@@ -392,7 +392,7 @@ impl Oracle<'_> {
     }
 }
 
-pub fn generate(out: &mut Out, rng: &mut Prng, thorough: bool) {
+pub fn generate(out: &mut Out, rng: &Prng, thorough: bool) {
     let mut ex = TimeExec;
     let mut emit = |out: &mut Out, line: String| {
         let obs = ex.exec(&line);
